@@ -986,11 +986,65 @@ def _tables(wide=False):
         },
         index=pd.Index(np.arange(6, dtype="int64") * 3),
     )
+    # homogeneous numeric table for array-/file-backed sources: every column has its own magnitude, `d` repeats (group key)
+    arr = np.arange(60, dtype="int64").reshape(12, 5) * np.array([1, 10, 100, 1000, 10000], dtype="int64")
+    N = pd.DataFrame(arr, columns=["a", "b", "c", "d", "e"])
+    N["d"] = np.arange(12, dtype="int64") % 4
+    if wide:
+        N = pd.concat([pd.Series(np.arange(12, dtype="int64") * 7, name="u1"), N[["a", "b"]],
+                       pd.Series(np.arange(12, dtype="int64") % 2, name="u2"), N[["c", "d", "e"]]], axis=1)
     if wide:
         L = pd.concat([pd.Series(np.arange(n) * 11, index=L.index, name="u1"), L[["a", "b"]],
                        pd.Series(np.arange(n) % 2, index=L.index, name="u2"), L[["c", "k", "ab"]]], axis=1)
         R = pd.concat([R[["k"]], pd.Series(np.arange(6) * 7, index=R.index, name="u3"), R[["b", "d", "k2"]]], axis=1)
-    return {"L": L, "R": R}
+    return {"L": L, "R": R, "N": N}
+
+
+SOURCES = ("pandas", "from_map", "from_array", "from_dict", "read_csv", "read_parquet")
+_TMP = None
+
+
+def _tmpdir():
+    """scratch directory for the file-backed sources, removed at interpreter exit"""
+    global _TMP
+    if _TMP is None:
+        import atexit
+        import shutil
+        import tempfile
+
+        _TMP = tempfile.mkdtemp(prefix="verif-c04-")
+        atexit.register(shutil.rmtree, _TMP, ignore_errors=True)
+    return _TMP
+
+
+def _source_N(pdf, source, wide):
+    """the table N as a dask-expr collection read through the given source class"""
+    import os
+
+    import dask_expr as dx
+
+    if source == "pandas":
+        return dx.from_pandas(pdf, npartitions=3, sort=False)
+    if source == "from_map":
+        cuts = [0, 5, 10, 12]
+        parts = [pdf.iloc[cuts[i]:cuts[i + 1]] for i in range(3)]
+        return dx.from_map(_ColReader(parts), [0, 1, 2], meta=pdf.iloc[:0])
+    if source == "from_array":
+        return dx.from_array(pdf.to_numpy(), chunksize=5, columns=list(pdf.columns))
+    if source == "from_dict":
+        return dx.from_dict({c: pdf[c].tolist() for c in pdf.columns}, npartitions=3)
+    d = os.path.join(_tmpdir(), f"{source}-{int(wide)}")
+    if source == "read_csv":
+        if not os.path.exists(d + ".csv"):
+            pdf.to_csv(d + ".csv", index=False)
+        return dx.read_csv(d + ".csv")
+    if source == "read_parquet":
+        if not os.path.exists(d):
+            os.makedirs(d)
+            pdf.iloc[:6].to_parquet(os.path.join(d, "part.0.parquet"))
+            pdf.iloc[6:].to_parquet(os.path.join(d, "part.1.parquet"))
+        return dx.read_parquet(d)
+    raise ValueError(source)
 
 
 _ENVS = {}
@@ -1002,7 +1056,7 @@ def _envs(wide, source="pandas"):
     key = (wide, source)
     if key not in _ENVS:
         t = _tables(wide)
-        if source == "pandas":
+        if source != "from_map":
             d = {"L": dx.from_pandas(t["L"], npartitions=3, sort=False), "R": dx.from_pandas(t["R"], npartitions=2, sort=False),
                  "L1": dx.from_pandas(t["L"], npartitions=1, sort=False)}
         else:  # from_map with a `columns` argument: FromMapProjectable
@@ -1011,6 +1065,7 @@ def _envs(wide, source="pandas"):
                 return dx.from_map(_ColReader(parts), list(range(len(parts))), meta=pdf.iloc[:0])
 
             d = {"L": mk(t["L"], [0, 3, 6, 8]), "R": mk(t["R"], [0, 2, 6]), "L1": mk(t["L"], [0, 8])}
+        d["N"] = _source_N(t["N"], source, wide)
         _ENVS[key] = (t | {"L1": t["L"]}, d)
     return _ENVS[key]
 
@@ -1050,6 +1105,7 @@ class Prog:
     unordered: bool = False
     noindex: bool = False
     extra: dict = field(default_factory=dict)  # further signature keys (Concat: axis)
+    sources: tuple = ()  # source classes the program is repeated over (programs on the table N)
 
 
 NUM = ["a", "b", "c", "k"]
@@ -1131,6 +1187,29 @@ def _programs():
     add("corr", lambda t: t["L"][["a", "b", "k"]].corr(), "Reduction._simplify_up", "cross-column reduction")
     add("mode", lambda t: t["L"][["a", "b"]].mode(), "Concat._simplify_up", "per-column results assembled by an axis=1 Concat (mode)",
         noindex=True, extra={"axis": 1})
+    # --- user functions: one output column may depend on other columns of the row
+    FL = ["a", "b", "k", "ab"]
+
+    def _share(row):
+        return row / row.sum()
+
+    def _share_block(x):
+        return x.div(x.sum(axis=1), axis=0)
+
+    add("apply_rowwise_cross", lambda t: (t["L"][FL].astype("float64").apply(_share, axis=1, meta=t["L"][FL].astype("float64")._meta)
+        if _dd(t["L"]) else t["L"][FL].astype("float64").apply(_share, axis=1)), "Apply[axis=1]", "user function reads other columns of the row")
+    add("apply_rowwise_entry", lambda t: (t["L"][FL].apply(lambda row: row * 2 + 1, axis=1, meta=t["L"][FL]._meta)
+        if _dd(t["L"]) else t["L"][FL].apply(lambda row: row * 2 + 1, axis=1)), "Apply[axis=1]", "entry-wise user function")
+    add("map_partitions_cross", lambda t: (t["L"][FL].astype("float64").map_partitions(_share_block)
+        if _dd(t["L"]) else _share_block(t["L"][FL].astype("float64"))), "MapPartitions", "user function reads other columns of the row")
+    add("map_partitions_named", lambda t: (t["L"].map_partitions(lambda x: x.assign(m=x.a * 3 + x.k))
+        if _dd(t["L"]) else t["L"].assign(m=t["L"].a * 3 + t["L"].k)), "MapPartitions", "user function addresses columns by name")
+    # --- projection absorbed by the source, for every source class (table N)
+    add("src", lambda t: t["N"], "BlockwiseIO._simplify_up", "projection absorbed by the source", sources=SOURCES)
+    add("src_plus1", lambda t: t["N"] + 1, "BlockwiseIO._simplify_up", "projection absorbed below an elementwise operator", sources=SOURCES)
+    add("src_filter", lambda t: t["N"][t["N"].d > 0], "BlockwiseIO._simplify_up", "filter on a column that is not selected", sources=SOURCES)
+    add("src_groupby", lambda t: t["N"].groupby("d").sum(), "BlockwiseIO._simplify_up", "group key needed implicitly",
+        unordered=True, sources=SOURCES)
     # --- two inputs
     for how in ("inner", "left"):
         add(f"merge_{how}", lambda t, how=how: t["L"].merge(t["R"], on="k", how=how), "Merge._simplify_up[Projection]", "on", unordered=True, noindex=True)
@@ -1322,6 +1401,8 @@ def _sig(prog, case, kind):
     sig = {"site": prog.site, "case": prog.case, "selection": "list" if isinstance(case["sel"], list) else "scalar",
            "consumers": "one" if case["term"] == "sel" else "shared", "kind": kind}
     sig.update(prog.extra)
+    if case.get("source"):
+        sig["source"] = case["source"]
     return sig
 
 
@@ -1360,6 +1441,21 @@ CORPUS = [
     {"prog": "explode", "term": "sel", "sel": "b"},
     {"prog": "round_dict", "term": "sel", "sel": "a"},
     {"prog": "where", "term": "sel", "sel": "a"},
+    # seeded mutants C04-m1 (row-wise apply declared projection-transparent), C04-m2 (array source reads by position)
+    {"prog": "apply_rowwise_cross", "term": "sel", "sel": ["k", "a"]},
+    {"prog": "apply_rowwise_cross", "term": "sel", "sel": "b"},
+    {"prog": "apply_rowwise_cross", "term": "shared_add", "sel": ["a"], "aux": "ab"},
+    {"prog": "map_partitions_cross", "term": "sel", "sel": ["b"]},
+    {"prog": "src", "term": "sel", "sel": ["c"], "source": "from_array"},
+    {"prog": "src", "term": "sel", "sel": "d", "source": "from_array"},
+    {"prog": "src", "term": "sel", "sel": ["e", "b"], "source": "from_array"},
+    {"prog": "src", "term": "shared_add", "sel": ["c"], "aux": "e", "source": "from_array"},
+    {"prog": "src_groupby", "term": "sel", "sel": ["e"], "source": "from_array"},
+    {"prog": "src", "term": "sel", "sel": ["e", "b"], "source": "from_dict"},
+    {"prog": "src", "term": "sel", "sel": ["e", "b"], "source": "read_csv"},
+    {"prog": "src", "term": "sel", "sel": ["e", "b"], "source": "read_parquet"},
+    {"prog": "src_filter", "term": "sel", "sel": ["c"], "source": "read_parquet"},
+    {"prog": "src", "term": "sel", "sel": ["e", "b"], "source": "from_map"},
 ]
 
 
@@ -1375,8 +1471,10 @@ def _cases(ctx, broken):
             continue
         cols = list(x.columns) if isinstance(x, pd.DataFrame) else [str(i) for i in x.index]
         sels = _selections(cols, rng, full)
+        srcs = prog.sources or (None,)
         for sel in sels:
-            cases.append({"prog": prog.name, "term": "sel", "sel": sel})
+            for src in srcs:
+                cases.append({"prog": prog.name, "term": "sel", "sel": sel} | ({"source": src} if src else {}))
         if isinstance(x, pd.DataFrame) and len(cols) >= 2:
             others = [c for c in cols]
             for sel in (sels[: len(cols)] + sels[2 * len(cols):][:8] + sels[-2:] if full else sels[: len(cols)] + sels[-2:]):
@@ -1388,7 +1486,8 @@ def _cases(ctx, broken):
                 for tname in ("shared_add", "shared_concat", "filter_sel", "sel_plus_full"):
                     if tname == "shared_add" and len(sel) != 1:
                         continue
-                    cases.append({"prog": prog.name, "term": tname, "sel": sel, "aux": aux})
+                    for src in srcs:
+                        cases.append({"prog": prog.name, "term": tname, "sel": sel, "aux": aux} | ({"source": src} if src else {}))
     # steer towards disagreeing / broken rules: run every case of the programs exercising that rule first
     steer_sites = set()
     for b in broken:
@@ -1416,12 +1515,13 @@ def _cases(ctx, broken):
                 kind = "scalar"
             else:
                 kind = "list1" if len(c["sel"]) == 1 else "listn"
-            if per[c["prog"]][kind] < quota[kind]:
-                per[c["prog"]][kind] += 1
+            pk = (c["prog"], c.get("source"))
+            if per[pk][kind] < quota[kind]:
+                per[pk][kind] += 1
                 picked.append(c)
         cases = picked
     else:
-        cases += [dict(c, source="from_map") for c in cases if c["term"] in ("sel", "filter_sel")][::7]
+        cases += [dict(c, source="from_map") for c in cases if c["term"] in ("sel", "filter_sel") and "source" not in c][::7]
     return CORPUS + cases
 
 
@@ -1448,7 +1548,7 @@ def support(ctx, broken):
         if kind not in _GENUINE:
             continue  # unsupported by dask-expr / fails identically without the optimiser: not a C04 matter
         sig = _sig(prog, case, kind)
-        key = (prog.site, prog.case, tuple(sorted(prog.extra.items())))  # one witness per shape
+        key = (prog.site, prog.case, tuple(sorted(prog.extra.items())), case.get("source"))  # one witness per shape
         if key in seen:
             continue
         seen.add(key)
